@@ -24,8 +24,10 @@ Inductive beh := BOk | BPanic (v : pval).
    nil finish function, or panic *)
 Inductive sbeh := SFn (fin : beh) | SNil | SPanic (v : pval).
 Inductive hbeh := HTrue | HFalse | HPanic (v : pval).
-(* field resolvers: value, error, panic *)
-Inductive rbeh := ROk | RErr | RPanic.
+(* field resolvers: value, error, panic; RFatal = error of a non-null field of
+   the root selection: the error propagates to the root and ends the execution *)
+Inductive rbeh := ROk | RErr | RPanic | RFatal.
+Definition is_fatal (fb : rbeh) : bool := match fb with RFatal => true | _ => false end.
 
 Record ext := mkExt {
   x_name : N;                 (* Name(); may collide with another extension's *)
@@ -179,6 +181,8 @@ Definition resolve_field (k : N) (fb : rbeh) (xs : list (N * ext)) : M N :=
       bind (run_finish (PResolve k) 1 (snd sf)) (fun e2 => ret (fst sf + e2 + 1))
     | RPanic => (* deferred recover: the pending notification is finished with an error *)
       bind (run_finish (PResolve k) 1 (snd sf)) (fun e2 => ret (fst sf + e2 + 1))
+    | RFatal => (* as RErr; handleFieldError re-panics, see exec_fields *)
+      bind (run_finish (PResolve k) 1 (snd sf)) (fun e2 => ret (fst sf + e2 + 1))
     end).
 
 Fixpoint exec_fields (k : N) (fields : list rbeh) (xs : list (N * ext)) : M N :=
@@ -186,6 +190,9 @@ Fixpoint exec_fields (k : N) (fields : list rbeh) (xs : list (N * ext)) : M N :=
   | [] => ret 0
   | fb :: r =>
     bind (resolve_field k fb xs) (fun a =>
+    (* a non-null root field that fails unwinds executePlannedSelection: the
+       goroutine of ExecutePlan recovers, the errors collected so far are kept *)
+    if is_fatal fb then ret a else
     bind (exec_fields (k + 1) r xs) (fun b => ret (a + b)))
   end.
 
